@@ -171,6 +171,7 @@ func PostMintBolt11(mintURL string, mintRequest nut04.PostMintBolt11Request) (
 }
 
 func PostSwap(mintURL string, swapRequest nut03.PostSwapRequest) (*nut03.PostSwapResponse, error) {
+	swapRequest.Inputs = removeDLEQ(swapRequest.Inputs)
 	requestBody, err := json.Marshal(swapRequest)
 	if err != nil {
 		return nil, fmt.Errorf("json.Marshal: %v", err)
@@ -245,6 +246,7 @@ func GetMeltQuoteState(mintURL, quoteId string) (*nut05.PostMeltQuoteBolt11Respo
 func PostMeltBolt11(mintURL string, meltRequest nut05.PostMeltBolt11Request) (
 	*nut05.PostMeltQuoteBolt11Response, error) {
 
+	meltRequest.Inputs = removeDLEQ(meltRequest.Inputs)
 	requestBody, err := json.Marshal(meltRequest)
 	if err != nil {
 		return nil, fmt.Errorf("json.Marshal: %v", err)
@@ -321,6 +323,18 @@ func PostRestore(mintURL string, restoreRequest nut09.PostRestoreRequest) (
 	}
 
 	return &restoreResponse, nil
+}
+
+// removeDLEQ returns a copy of the proofs without the DLEQ proofs. The mint does not
+// need them in the inputs and the blinding factor 'r' stored in them would allow
+// the mint to link the inputs with the blind signatures it issued.
+func removeDLEQ(proofs cashu.Proofs) cashu.Proofs {
+	inputs := make(cashu.Proofs, len(proofs))
+	for i, proof := range proofs {
+		proof.DLEQ = nil
+		inputs[i] = proof
+	}
+	return inputs
 }
 
 func get(url string) (*http.Response, error) {
